@@ -306,11 +306,105 @@ def gen_queries(D, family):
         return trees_depth2(lv)
     if family == "d2_terms":
         return trees_depth2(terms)
+    if family == "array":
+        # queries executed by ArrayUnionMatcher: 3-clause Or / DisMax-free
+        # trees and multi-term expansions (alone, negated, under And/AndNot)
+        return array_family(terms, D)
     raise ValueError(family)
+
+
+def array_family(terms, D):
+    multi = [l for l in special_leaves(D) if l[0] in ("prefix", "wild", "regex", "trange", "fuzzy")]
+    for a in terms:
+        for b in terms:
+            for c in terms[::3]:
+                yield ["or", [a, b, c]]
+    for m in multi:
+        yield m
+        yield ["not", m]
+        for a in terms:
+            yield ["and", [a, m]]
+            yield ["andnot", a, m]
+            yield ["or", [a, m, terms[-1]]]
+
+
+def phrase_docs(maxlen):
+    """Every token sequence of length 1..maxlen over {x, y, z}."""
+    out = []
+    for n in range(1, maxlen + 1):
+        for seq in itertools.product("xyz", repeat=n):
+            out.append(list(seq))
+    return out
+
+
+def phrase_task(t):
+    """Exhaustive phrase semantics: one index holding every token sequence up
+    to length 5 over a 3-word vocabulary (2 segments, one deletion), every
+    phrase of 2-3 words x slop 1..3, every access path."""
+    seed, layout, maxlen = t
+    acc = core.Acc()
+    seqs = phrase_docs(maxlen)
+    docs = [{"key": "k%d" % i, "live": True, "s": [], "w": [], "p": seq, "n": None, "d": None, "b": None}
+            for i, seq in enumerate(seqs)]
+    layout = dict(layout)
+    n = len(docs)
+    layout["segs"] = [n - n // 3, n // 3]
+    layout["deleted"] = [1, n - 2]
+    ix, docs = corpus.build_index(docs, layout)
+    try:
+        model = corpus.make_model(docs)
+        with ix.searcher() as s:
+            km = keymap(s)
+            for nwords in (2, 3):
+                for words in itertools.product("xyz", repeat=nwords):
+                    for slop in (1, 2, 3):
+                        ast = ["phrase", "p", list(words), slop]
+                        eval_case(s, model, ast, PATHS_MID, acc, layout, "phrase%d" % maxlen, seed, km)
+                        acc.count("phrase_cases")
+    finally:
+        corpus.destroy_index(ix)
+    return acc.result()
+
+
+class _SmallPartArrayUnion(object):
+    """Context manager: Or/multi-term queries build their ArrayUnionMatcher
+    with a tiny part size so part boundaries are crossed on a 4-document
+    index (the default, 2048, is never crossed by small corpora)."""
+
+    def __init__(self, partsize):
+        self.partsize = partsize
+
+    def __enter__(self):
+        import whoosh.matching as M
+        import whoosh.matching.combo as combo
+        self.M, self.combo = M, combo
+        self.orig = combo.ArrayUnionMatcher
+        ps = self.partsize
+
+        class SmallPart(self.orig):
+            def __init__(self, submatchers, doccount, boost=1.0, scored=True, partsize=2048):
+                combo_orig_init(self, submatchers, doccount, boost=boost, scored=scored, partsize=ps)
+        combo_orig_init = self.orig.__init__
+        SmallPart.__name__ = "ArrayUnionMatcher"
+        M.ArrayUnionMatcher = SmallPart
+        return self
+
+    def __exit__(self, *a):
+        self.M.ArrayUnionMatcher = self.orig
 
 
 def task(t):
     """One (D, seed, layout, query family, slice) unit."""
+    if t[0] == "phrase":
+        return phrase_task(t[1:])
+    D, seed, layout, family, nslices, sl, paths_mode = t
+    if layout.get("array_partsize"):
+        with _SmallPartArrayUnion(layout["array_partsize"]):
+            return _task(t)
+    return _task(t)
+
+
+def _task(t):
     D, seed, layout, family, nslices, sl, paths_mode = t
     acc = core.Acc()
     docs = corpus.universe_docs(D, seed)
@@ -358,6 +452,16 @@ def run(ctx):
         for lay in lays:
             for sl in range(nsl):
                 tasks.append((D, seed, lay, family, nsl, sl, pm))
+    # array-union part boundaries (part size forced to 1 / 2) and exhaustive
+    # phrase semantics
+    for ps in (1, 2):
+        for lay in ([{"segs": [4], "deleted": [], "blocklimit": 2}, {"segs": [3, 1], "deleted": [1], "blocklimit": 1}]):
+            lay = dict(lay, array_partsize=ps)
+            nlay += 1
+            for sl in range(4):
+                tasks.append((4, seed, lay, "array", 4, sl, "full" if ctx.tier != "quick" else "mixed"))
+    tasks.append(("phrase", seed, {"blocklimit": 2}, 5))
+    tasks.append(("phrase", seed, {"blocklimit": None, "storage": "file"}, 3))
     ctx.extra["index_variants"] = nlay
     ctx.extra["plan"] = [list(p) for p in plan]
     ctx.rule = ("every query tree of the stated families over the universe corpus U(D) "
